@@ -196,3 +196,241 @@ def install(reg, src):
                        [z3.BoolVal(f.get(cn, 0) is None) for cn in CACHES]
             c.ensures("empty model, caches None", post)
     reg.PState = PState
+    install_vars(reg, src)
+
+
+# ======================================================================================= C16: variables of a problem
+NAMESET = z3.ArraySort(sym.Name, sym.B)
+NAMES_OF = sym.fn("NAMES_OF", sym.Ref, NAMESET)          # names of the Variables in a list object
+NATSORTED = sym.fn("NATSORTED", sym.Ref, sym.B)          # list object is sorted by the natural (numeric-aware) key
+DISTINCT = sym.fn("DISTINCTNAMES", sym.Ref, sym.B)       # no two entries of the list object have the same name
+
+
+def NM(ip):
+    """The arbitrary variable name of this path: every `for all names` statement is instantiated at it."""
+    g = ip.path.ghost
+    if "NM*" not in g:
+        g["NM*"] = sym.fresh("anyname", sym.Name)
+    return g["NM*"]
+
+
+def install_vars(reg, src):
+    from .seqtheory import OCCV, VLEN, register_vector, named_exists, named_forall, seqs, _once
+    from .compiler_c import names_of_varlist
+    EX = "optyx.core.expressions"
+
+    def set_of_field(ip, ref, field, S):
+        if field == "_variables":
+            sp = Spec(ip)
+            def member(nm):
+                register_vector(sp, ref, nm)
+                return OCCV(ref, nm, VLEN(ref))
+            return SSet(member, "set(vector._variables)")
+        return None
+    reg.set_of_field_hook = set_of_field
+
+    def sorted_hook(ip, it, key, node):
+        """sorted(set_of_variables, key=_natural_sort_key): the list with exactly one Variable per name in the set, in
+        natural order (A4: sorted returns the key-ordered permutation; the natural order is established only when the
+        key is optyx.problem._natural_sort_key itself)."""
+        from pyvc.values import FuncRef
+        if not isinstance(it, SSet):
+            raise Unsupported("sorted() of something that is not a set of Variables")
+        base = sym.fresh("sortedlist", sym.Ref)
+        L = ip.schema.seq_of_base(ip, base, "Variable")
+        nm = NM(ip)
+        ip.path.assume(z3.Select(NAMES_OF(base), nm) == it.member(nm))
+        ip.path.assume(DISTINCT(base))
+        if isinstance(key, FuncRef) and key.finfo.key == f"{M}:_natural_sort_key":
+            ip.path.assume(NATSORTED(base))
+        return L
+    reg.sorted_hook = sorted_hook
+
+    def boxed_seq_hook(ip, base, S):
+        """list(vector._variables) etc.: the new list object has the names of its source."""
+        nm = NM(ip)
+        if S.tag and S.tag[0] == "field" and S.tag[1] == "_variables":
+            vref = S.tag[2]
+            sp = Spec(ip)
+            register_vector(sp, vref, nm)
+            ip.path.assume(z3.Select(NAMES_OF(base), nm) == OCCV(vref, nm, VLEN(vref)))
+            ip.path.assume(DISTINCT(base))      # A6
+    reg.boxed_seq_hook = boxed_seq_hook
+
+    # ---- get_variables: the virtual contract and every override
+    def gv_contract(c, argname="self", ty=None):
+        sp = Spec(c.ip)
+        e = c.arg(argname, ty)
+        c.decreases(e)
+        c.returns(lambda cc: SSet(lambda nm: sp.occ(e, nm), "Vars"))
+        def post(res):
+            if not isinstance(res, SSet):
+                return z3.BoolVal(False)
+            nm = NM(c.ip)
+            return res.member(nm) == sp.occ(e, nm)
+        c.ensures("exactly the variables that occur", post)
+        return e
+
+    @reg.contract("virtual:Expression.get_variables", props=["C16"], group="vars", rank=0)
+    def _(c):
+        gv_contract(c, "self", T.expr())
+
+    from .compiler_c import compile_cases
+    from .expressions_c import EV_KEYS
+    kinds = {}
+    for cse in compile_cases(src):
+        kinds.setdefault(cse.split("|")[0].split(":")[0], []).append(cse)
+    for kind, kcases in kinds.items():
+        ci = src.classes.get(kind)
+        if ci is None or "get_variables" not in ci.methods or kind in ("MatrixSum", "FrobeniusNorm"):
+            continue
+        key = ci.methods["get_variables"].key
+        def mk(key=key, kcases=kcases, kind=kind):
+            @reg.contract(key, props=["C16"], cases={"node": kcases}, group="vars", rank=1)
+            def _(c):
+                from .autodiff_c import node_type
+                sp = Spec(c.ip)
+                case = c.choose("node", kcases)
+                if case is None:
+                    return gv_contract(c, "self", None)
+                parts = case.split("|")
+                e = gv_contract(c, "self", node_type(parts[0]))
+                r = sp.ref(e)
+                base_kind = parts[0].split(":")[0]
+                fixed = {"VectorSum": ("vector", "VectorVariable"), "VectorPowerSum": ("vector", "VectorVariable"),
+                         "VectorUnarySum": ("vector", "VectorVariable"), "VectorExpressionSum": ("expression", "VectorExpression")}
+                pairs = []
+                if len(parts) > 1:
+                    fields = ["left", "right"] if base_kind == "DotProduct" else ["vector"]
+                    pairs = list(zip(fields, parts[1:]))
+                elif base_kind in fixed:
+                    pairs = [fixed[base_kind]]
+                for f, k in pairs:
+                    v = sp.S.F(f, sym.Ref)(r)
+                    c.assume(sp.K.is_kind(v, k))
+                    sp.S.learn_kind(c.ip, v, k)
+        mk()
+
+    # VectorExpression.get_variables (container): union over elements
+    @reg.contract("optyx.core.vectors:VectorExpression.get_variables", props=["C16"], group="vars", rank=1)
+    def _(c):
+        sp = Spec(c.ip)
+        ve = c.arg("self", T.obj("VectorExpression", exact=True))
+        v = sp.ref(ve)
+        c.decreases(ve)
+        def member(nm):
+            register_vector(sp, v, nm)
+            return OCCV(v, nm, VLEN(v))
+        c.returns(lambda cc: SSet(member, "Vars(vector expression)"))
+        def post(res):
+            nm = NM(c.ip)
+            return res.member(nm) == member(nm)
+        c.ensures("exactly the variables that occur", post)
+        if c.verifying:
+            nm = NM(c.ip)
+            register_vector(sp, v, nm)
+            MEM = sym.fn("MEMHV", sym.I, sym.Name, sym.B)
+            def inv(st):
+                res = st.var("result")
+                return res.member(nm) == OCCV(v, nm, st.i)
+            c.loop(1, inv, havoc={"result": T.custom(lambda ip, h: SSet(lambda n_, t=sym.fresh("memhv", NAMESET): z3.Select(t, n_), "havoc"))})
+
+    @reg.contract(f"{M.replace('problem', 'constraints')}:Constraint.get_variables", props=["C16"])
+    def _(c):
+        sp = Spec(c.ip)
+        con = c.arg("self", T.obj("Constraint", exact=True))
+        e = Opaque(sp.S.F("expr", sym.Ref)(sp.ref(con)), "Expression")
+        c.returns(lambda cc: SSet(lambda nm: sp.occ(e, nm), "Vars"))
+        c.ensures("exactly the variables that occur", lambda res: res.member(NM(c.ip)) == sp.occ(e, NM(c.ip)))
+
+    @reg.contract(f"{EX}:get_all_variables", props=["C16", "C15"])
+    def _(c):
+        gv_contract(c, "expr", T.expr())
+
+    @reg.contract(f"{EX}:_get_variables_iterative", props=["C16", "C15"],
+                  bounded="worklist traversal with a seen-set keyed by id(); covered by the bounded stand-in (all tree shapes "
+                          "up to the stated size) -- the invariant Vars(expr) = Done U Vars(stack) is stated in DESIGN.md")
+    def _(c):
+        gv_contract(c, "expr", T.expr())
+
+    @reg.contract(f"{EX}:_estimate_tree_depth", props=["C15"],
+                  trusted="returns some int and writes nothing (frame scan); only selects between twins with the same contract")
+    def _(c):
+        c.arg("expr")
+        c.returns(T.int_())
+
+    @reg.contract(f"{M}:_try_get_single_vector_source", props=["C16", "C15"],
+                  bounded="worklist traversal; covered by the bounded stand-in; contract: a returned vector has exactly the "
+                          "variables of the expression")
+    def _(c):
+        sp = Spec(c.ip)
+        e = c.arg("expr", T.expr())
+        c.returns(T.opt(T.obj("VectorVariable", exact=True)))
+        def post(res):
+            nm = NM(c.ip)
+            if res is None:
+                return None
+            v = res.val.ref if isinstance(res, SOpt) else res.ref
+            register_vector(sp, v, nm)
+            fact = sp.occ(e, nm) == OCCV(v, nm, VLEN(v))
+            return z3.Implies(z3.Not(res.isnone), fact) if isinstance(res, SOpt) else fact
+        c.ensures("same variables", post)
+
+    # ---- Problem.variables
+    @reg.contract(f"{M}:{P_}variables", props=["C16", "C13"], cases={"cache": ["none", "set"], "objective": ["none", "set"]})
+    def _(c):
+        sp = Spec(c.ip)
+        P = c.arg("self", T.obj("Problem", exact=True))
+        ip = c.ip
+        ip.path.assume(z3.Select(st(ip, "Problem._constraints!len", sym.I), P.ref) >= 0)
+        before = PState(ip, P)
+        nm = NM(ip)
+        cons_arr, ncon = before.cons, before.ncon
+        EXPR = sp.S.F("expr", sym.Ref)
+        excon = named_exists(ip, "EXCON", [cons_arr, nm], ncon, lambda k: sp.S.OCC(EXPR(z3.Select(cons_arr, k)), nm))
+        # make the OCC unfolding of each constraint expression available at the index terms
+        def pw(k):
+            if _once(ip, f"conocc:{cons_arr}:{k}"):
+                sp.occ(Opaque(EXPR(z3.Select(cons_arr, k)), "Expression"), nm)
+        seqs(ip).pointwise.append(pw)
+        objocc = z3.And(z3.Not(before.obj_none), sp.occ(Opaque(before.obj, "Expression"), nm))
+        VARSET = lambda i: z3.Or(objocc, excon(i))
+
+        def valid(base):
+            """the cached / returned list is what a fresh computation gives for the current model"""
+            return z3.And(z3.Select(NAMES_OF(base), nm) == VARSET(ncon), DISTINCT(base), NATSORTED(base))
+        cache_none = before.cache_none["_variables"]
+        cache_base = z3.Select(st(ip, "Problem._variables", sym.Ref), P.ref)
+        if c.verifying:
+            c.assume(cache_none if c.case["cache"] == "none" else z3.Not(cache_none))
+            c.assume(before.obj_none if c.case["objective"] == "none" else z3.Not(before.obj_none))
+            c.assume(z3.Implies(z3.Not(cache_none), valid(cache_base)))        # Inv (C13)
+        else:
+            c.requires(z3.Implies(z3.Not(cache_none), valid(cache_base)), name="cache invariant")
+            havoc_fields(ip, P, ["_variables"])
+        c.returns(lambda cc: ip.schema.seq_of_base(ip, sym.fresh("variables", sym.Ref), "Variable"))
+
+        def post(res):
+            if not isinstance(res, SSeq) or not res.tag:
+                return z3.BoolVal(False)
+            base = res.tag[2]
+            now = PState(ip, P)
+            return [z3.Select(NAMES_OF(base), nm) == VARSET(ncon), DISTINCT(base), NATSORTED(base),
+                    z3.And(z3.Not(now.cache_none["_variables"]), z3.Select(st(ip, "Problem._variables", sym.Ref), P.ref) == base),
+                    now.same_model(before)]
+        c.ensures("exactly the variables mentioned / one per name / natural order / cached / model untouched", post)
+        if c.verifying:
+            def inv1(st_):
+                a_s = st_.var("all_same")
+                return [a_s.t if isinstance(a_s, SBool) else z3.BoolVal(bool(a_s)),
+                        named_forall(ip, "SAMESRC", [cons_arr, nm, sp.ref(st_.var("source_vector")) if not isinstance(st_.var("source_vector"), SOpt) else st_.var("source_vector").val.ref],
+                                     ncon, lambda k: sp.S.OCC(EXPR(z3.Select(cons_arr, k)), nm) ==
+                                     OCCV(st_.var("source_vector").val.ref if isinstance(st_.var("source_vector"), SOpt) else sp.ref(st_.var("source_vector")), nm,
+                                          VLEN(st_.var("source_vector").val.ref if isinstance(st_.var("source_vector"), SOpt) else sp.ref(st_.var("source_vector")))))(st_.i)]
+            c.loop(1, inv1, havoc={"constraint_source": T.opt(T.obj("VectorVariable", exact=True))})
+            def inv2(st_):
+                av = st_.var("all_vars")
+                return av.member(nm) == VARSET(st_.i)
+            c.loop(2, inv2, havoc={"all_vars": T.custom(lambda ip_, h: SSet(lambda n_, t=sym.fresh("memhv", NAMESET): z3.Select(t, n_), "havoc"))})
+    reg.NM = NM
+    reg.NAMES_OF, reg.NATSORTED, reg.DISTINCT = NAMES_OF, NATSORTED, DISTINCT
